@@ -802,9 +802,7 @@ def hoist_walrus(fn):
                 if first is not None:
                     return
                 if isinstance(node, ast.NamedExpr):
-                    walk(node.value)
-                    if first is None:
-                        first = node
+                    first = node                    # its value moves with it
                     return
                 if isinstance(node, (ast.Lambda, ast.ListComp, ast.SetComp, ast.DictComp, ast.GeneratorExp)):
                     first = node
@@ -823,8 +821,8 @@ def hoist_walrus(fn):
                     walk(c)
                     if first is not None:
                         return
-                if isinstance(node, (ast.Call, ast.Await, ast.Yield, ast.YieldFrom)):
-                    first = node
+                if isinstance(node, (ast.Call, ast.Await, ast.Yield, ast.YieldFrom, ast.Attribute, ast.Subscript)):
+                    first = node                    # evaluated before the binding: the binding is not moved across it
 
             walk(root)
             if isinstance(first, ast.NamedExpr) and isinstance(first.target, ast.Name):
@@ -851,8 +849,7 @@ def hoist_walrus(fn):
                                 for j, x in enumerate(v):
                                     if x is ne:
                                         v[j] = load
-                lst.insert(i, new)
-                i += 1                              # look at the same statement again (a second walrus)
+                lst.insert(i, new)                  # next: the new statement (a walrus inside its value), then this one again
                 continue
             i += 1
     return fn
